@@ -107,8 +107,8 @@ def check_matrix(led, method, kernel_names, extra_kwargs=None, with_conn=False, 
                 if method not in ('calc_fint', 'calc_fext'):
                     kw['finalize'] = fin
                 if state:
-                    from ..kernel import InArray
-                    kw['c'] = InArray('c', shape=(offsets(meta)[1],))
+                    from ..kernel import InArray, user_array
+                    kw['c'] = user_array('c', shape=(offsets(meta)[1],))
                 if extra_kwargs:
                     kw.update(extra_kwargs)
                 if with_conn and conn_spec == []:
